@@ -87,6 +87,12 @@ pub trait Life {
         }
     }
     fn as_any(&self) -> &dyn std::any::Any;
+    /// `self.union(peer)` / `self.merge(peer)` with a peer of the same configuration: state that
+    /// arrives without a single insert / add on the receiver. None: the structure has no such
+    /// operation (or `peer` is of another type); Some(0): done, Some(2): refused with an error.
+    fn absorb_dyn(&mut self, _peer: &dyn Life) -> Option<u64> {
+        None
+    }
     /// `Clone::clone_from(self, src)`; false if `src` is not the same structure type
     fn clone_from_dyn(&mut self, src: &dyn Life) -> bool;
 }
@@ -125,6 +131,10 @@ impl Life for FilterLife {
             Some(s) => self.0.clone_from_other(&s.0),
             None => false,
         }
+    }
+    fn absorb_dyn(&mut self, peer: &dyn Life) -> Option<u64> {
+        let p = peer.as_any().downcast_ref::<FilterLife>()?;
+        Some(if self.0.union(&p.0).is_ok() { 0 } else { 2 })
     }
     fn apply(&mut self, a: u64, b: u64) -> (u64, bool) {
         // one operation in five on a filter that can delete is a delete (of a present or an absent
@@ -171,6 +181,11 @@ impl Life for CmsLife {
             None => false,
         }
     }
+    fn absorb_dyn(&mut self, peer: &dyn Life) -> Option<u64> {
+        let p = peer.as_any().downcast_ref::<CmsLife>()?;
+        self.0.merge(&p.0);
+        Some(0)
+    }
     fn apply(&mut self, a: u64, b: u64) -> (u64, bool) {
         let n = 1 + b % 3;
         (if n == 1 { self.0.add(a) } else { self.0.add_n(a, n) }, true)
@@ -194,6 +209,11 @@ impl Life for CmsLife {
 struct HllLife(Hll);
 impl Life for HllLife {
     clone_from_impl!(HllLife);
+    fn absorb_dyn(&mut self, peer: &dyn Life) -> Option<u64> {
+        let p = peer.as_any().downcast_ref::<HllLife>()?;
+        self.0.merge(&p.0);
+        Some(0)
+    }
     fn apply(&mut self, a: u64, b: u64) -> (u64, bool) {
         if b % 2 == 0 {
             self.0.add(&a)
